@@ -197,7 +197,9 @@ def build(desc):
         if isinstance(tgt, dict):
             by_src.setdefault(sname, []).append((rid, rtype, "External", tgt["ext"]))
         else:
-            by_src.setdefault(sname, []).append((rid, rtype, "Internal", spell(parts[tgt]["name"], O.dirname(sname), how)))
+            # one internal relationship in four carries TargetMode="Internal" explicitly (the schema default)
+            mode = "Internal!" if sum(map(ord, rid)) % 4 == 0 else "Internal"
+            by_src.setdefault(sname, []).append((rid, rtype, mode, spell(parts[tgt]["name"], O.dirname(sname), how)))
     for i in desc.get("empty_rels", []):
         by_src.setdefault(parts[i]["name"], [])
     for sname, rl in by_src.items():
